@@ -113,6 +113,43 @@ def _unself(node, ty):
     return out
 
 
+def _result_value(e):
+    """a `Result` expression all of whose leaves are `Ok(v)` / `Err(x)` (through match arms, if/else, blocks) as the value of
+    `<that expression>?` inside a function returning the same Result: `Ok(v)` -> `v`, `Err(x)` -> `return Err(x)`; None if not of that form"""
+    k = e.get('k')
+    if k == 'Call' and e['func'].get('k') == 'Path' and len(e['args']) == 1:
+        fn = e['func']['path']['s']
+        if fn == 'Ok':
+            return e['args'][0]
+        if fn == 'Err':
+            return {'k': 'Return', 'l': e.get('l', 0), 'expr': e}
+        return None
+    if k == 'Match':
+        arms = []
+        for a in e['arms']:
+            b = _result_value(a['body'])
+            if b is None:
+                return None
+            arms.append(dict(a, body=b))
+        return dict(e, arms=arms)
+    if k == 'If' and e.get('else') is not None:
+        t, f = _result_value(e['then']), _result_value(e['else'])
+        if t is None or f is None:
+            return None
+        if t.get('k') != 'Block':
+            t = {'k': 'Block', 'l': e.get('l', 0), 'stmts': [{'k': 'Expr', 'expr': t, 'semi': False, 'l': e.get('l', 0)}]}
+        return dict(e, then=t, **{'else': f})
+    if k == 'Block':
+        st = e.get('stmts') or []
+        if not st or st[-1].get('k') != 'Expr' or st[-1].get('semi'):
+            return None
+        v = _result_value(st[-1]['expr'])
+        if v is None:
+            return None
+        return dict(e, stmts=st[:-1] + [dict(st[-1], expr=v)])
+    return None
+
+
 def inlinable(g, with_try):
     """(params, statements, value expression) of a helper that can be substituted for a call; with_try: the call is `g(..)?`
     (the helper must end in `Ok(E)`; `return Err(..)` and `?` inside are fine); otherwise the helper must not return early or use `?`
@@ -136,9 +173,14 @@ def inlinable(g, with_try):
             params.append(None if a['pat']['k'] == 'Wild' else a['pat']['name'])
         return params, [], oc
     if with_try:
-        if not (tail['k'] == 'Call' and tail['func']['k'] == 'Path' and tail['func']['path']['s'] == 'Ok' and len(tail['args']) == 1):
-            return None
-        value = tail['args'][0]
+        if tail['k'] == 'Call' and tail['func']['k'] == 'Path' and tail['func']['path']['s'] == 'Ok' and len(tail['args']) == 1:
+            value = tail['args'][0]
+        else:
+            # `match E { P => Ok(v), _ => Err(x) }?`  ==  `match E { P => v, _ => return Err(x) }`
+            value = _result_value(tail) if tail['k'] in ('Match', 'If') else None
+            if value is None:
+                return None
+            blk = dict(blk, stmts=st[:-1] + [dict(st[-1], expr=value)])
     else:
         value = tail
     for x in walk_json(blk):
